@@ -396,8 +396,10 @@ def main():
         rc = 2
     finally:
         ev['wall_s'] = round(time.time() - t0, 2)
-        os.makedirs(os.path.join(VERIF, 'evidence'), exist_ok=True)
-        json.dump(ev, open(os.path.join(VERIF, 'evidence', pid + '.json'), 'w'), indent=1)
+        # self-test runs against a scratch copy of the sources (VERIF_REPO_SRC) must not overwrite the evidence
+        evdir = os.path.join(VERIF, 'evidence') if 'VERIF_REPO_SRC' not in os.environ else os.path.join(work, 'evidence')
+        os.makedirs(evdir, exist_ok=True)
+        json.dump(ev, open(os.path.join(evdir, pid + '.json'), 'w'), indent=1)
         if not a.keep:
             shutil.rmtree(work, ignore_errors=True)
         else:
